@@ -566,6 +566,7 @@ func main() {
 	setConst := flag.String("setconst", "", "comma separated <pkgpath>.<Name>=<value>: replaces the value of a package-level constant (scale only)")
 	racePkgs := flag.String("race", "", "comma separated package paths whose field and package-variable accesses are instrumented for the happens-before detector")
 	extra := flag.String("extra", "", "directory with extra files to add to packages: <dir>/<pkg path relative to repo>/<file>.go")
+	resetGlobals := flag.String("resetglobals", "", "comma separated package paths that get a generated VerifResetGlobals() re-initialising their package-level variables (executions of one process must not see each other's state)")
 	flag.Parse()
 	if *out == "" {
 		fmt.Fprintln(os.Stderr, "-out required")
@@ -579,6 +580,12 @@ func main() {
 		}
 	}
 
+	rg := map[string]bool{}
+	for _, p := range strings.Split(*resetGlobals, ",") {
+		if p != "" {
+			rg[p] = true
+		}
+	}
 	rp := map[string]bool{}
 	for _, p := range strings.Split(*racePkgs, ",") {
 		if p != "" {
@@ -605,6 +612,9 @@ func main() {
 		os.Exit(1)
 	}
 	overlay := map[string]string{}
+	resetFuncs := map[string][]string{}
+	resetPkgName := map[string]string{}
+	resetDir := map[string]string{}
 	bad := false
 	sort.Slice(pkgs, func(i, j int) bool { return pkgs[i].PkgPath < pkgs[j].PkgPath })
 	nFiles := 0
@@ -642,6 +652,14 @@ func main() {
 						}
 					}
 				}
+			}
+			if rg[p.PkgPath] {
+				fn := "verifResetGlobals" + strconv.Itoa(i)
+				f.Decls = append(f.Decls, resetFunc(fn, f))
+				resetFuncs[p.PkgPath] = append(resetFuncs[p.PkgPath], fn)
+				resetPkgName[p.PkgPath] = f.Name.Name
+				resetDir[p.PkgPath] = filepath.Dir(name)
+				r.changed = true
 			}
 			for _, im := range f.Imports {
 				path, _ := strconv.Unquote(im.Path.Value)
@@ -690,6 +708,30 @@ func main() {
 	if bad {
 		os.Exit(1)
 	}
+	// aggregators of the generated reset functions (one added file per package)
+	for pkgPath, fns := range resetFuncs {
+		var sb strings.Builder
+		sb.WriteString("// Code generated by /verif/instrument; DO NOT EDIT.\n\npackage " + resetPkgName[pkgPath] + "\n\n")
+		sb.WriteString("// VerifResetGlobals gives every package-level variable its initial value again.\nfunc VerifResetGlobals() {\n")
+		for _, fn := range fns {
+			sb.WriteString("\t" + fn + "()\n")
+		}
+		sb.WriteString("}\n")
+		rel, _ := filepath.Rel(*repo, resetDir[pkgPath])
+		dst := filepath.Join(*out, "src", rel, "verif_reset_globals_gen.go")
+		os.MkdirAll(filepath.Dir(dst), 0o755)
+		writeIfChanged(dst, []byte(sb.String()))
+		overlay[filepath.Join(resetDir[pkgPath], "verif_reset_globals_gen.go")] = dst
+	}
+	for p := range rg {
+		if _, ok := resetFuncs[p]; !ok {
+			fmt.Fprintln(os.Stderr, "resetglobals: package not found:", p)
+			bad = true
+		}
+	}
+	if bad {
+		os.Exit(1)
+	}
 	// the runtime as virtual package rare/verifrt
 	filepath.Walk(*vrtDir, func(path string, info os.FileInfo, err error) error {
 		if err != nil || info.IsDir() || !strings.HasSuffix(path, ".go") {
@@ -713,6 +755,52 @@ func main() {
 	b, _ := json.MarshalIndent(map[string]any{"Replace": overlay}, "", " ")
 	writeIfChanged(filepath.Join(*out, "overlay.json"), b)
 	fmt.Printf("instrumented %d files, overlay entries %d\n", nFiles, len(overlay))
+}
+
+// resetFunc builds `func name() { v = <initialiser>; w = *new(T); ... }` for the
+// package-level variables declared in f, in source order.
+func resetFunc(name string, f *ast.File) *ast.FuncDecl {
+	var stmts []ast.Stmt
+	for _, d := range f.Decls {
+		gd, ok := d.(*ast.GenDecl)
+		if !ok || gd.Tok != token.VAR {
+			continue
+		}
+		for _, sp := range gd.Specs {
+			vs := sp.(*ast.ValueSpec)
+			var lhs []ast.Expr
+			blank := true
+			for _, nm := range vs.Names {
+				lhs = append(lhs, ast.NewIdent(nm.Name))
+				if nm.Name != "_" {
+					blank = false
+				}
+			}
+			if blank {
+				continue
+			}
+			switch {
+			case len(vs.Values) == len(vs.Names):
+				for i, nm := range vs.Names {
+					if nm.Name == "_" {
+						continue
+					}
+					stmts = append(stmts, &ast.AssignStmt{Lhs: []ast.Expr{ast.NewIdent(nm.Name)}, Tok: token.ASSIGN, Rhs: []ast.Expr{vs.Values[i]}})
+				}
+			case len(vs.Values) == 1:
+				stmts = append(stmts, &ast.AssignStmt{Lhs: lhs, Tok: token.ASSIGN, Rhs: []ast.Expr{vs.Values[0]}})
+			case len(vs.Values) == 0 && vs.Type != nil:
+				for _, nm := range vs.Names {
+					if nm.Name == "_" {
+						continue
+					}
+					zero := &ast.StarExpr{X: &ast.CallExpr{Fun: ast.NewIdent("new"), Args: []ast.Expr{vs.Type}}}
+					stmts = append(stmts, &ast.AssignStmt{Lhs: []ast.Expr{ast.NewIdent(nm.Name)}, Tok: token.ASSIGN, Rhs: []ast.Expr{zero}})
+				}
+			}
+		}
+	}
+	return &ast.FuncDecl{Name: ast.NewIdent(name), Type: &ast.FuncType{Params: &ast.FieldList{}}, Body: &ast.BlockStmt{List: stmts}}
 }
 
 func writeIfChanged(path string, b []byte) {
